@@ -50,6 +50,14 @@ impl Frac {
     }
 }
 
+#[cfg(feature = "verif_hooks")]
+impl Frac {
+    /// Raw value in twelfths of a codeword.
+    pub(super) fn twelfths(self) -> C {
+        self.0
+    }
+}
+
 impl From<C> for Frac {
     fn from(c: C) -> Frac {
         Frac::new(c, 1)
